@@ -558,14 +558,15 @@ func c08Attributes(c *Ctx) {
 				if !isB {
 					continue
 				}
-				fo := flow.FieldOwner(bo.X)
+				isField := func(v ssa.Value) bool { return strings.HasSuffix(flow.FieldOwner(v), "AcctRequest."+w.field) }
+				isConst := func(want int64) func(ssa.Value) bool {
+					return func(v ssa.Value) bool { k, ok := constInt(v); return ok && k == want }
+				}
 				switch {
-				case strings.HasSuffix(fo, "AcctRequest.StatusType"):
-				case strings.HasSuffix(fo, "AcctRequest."+w.field):
-					// field > 0xFFFFFFFF (or the same test spelt >= 0x100000000, or negated <=)
-					op, _, y, isCmp := flow.CmpOf(ft)
-					k, isK := constInt(y)
-					if !isCmp || !isK || !((op == token.GTR && k == 0xFFFFFFFF) || (op == token.GEQ && k == 0x100000000)) {
+				case strings.HasSuffix(flow.FieldOwner(bo.X), "AcctRequest.StatusType") || strings.HasSuffix(flow.FieldOwner(bo.Y), "AcctRequest.StatusType"):
+				case isField(bo.X) || isField(bo.Y):
+					// field > 0xFFFFFFFF, in any spelling (>= 0x100000000, negated <=, constant on the left)
+					if !flow.Holds(ft, token.GTR, isField, isConst(0xFFFFFFFF)) && !flow.Holds(ft, token.GEQ, isField, isConst(0x100000000)) {
 						guardOK = false
 					}
 				case errOrigin(bo.X) != "":
